@@ -184,6 +184,11 @@ func init() {
 			{Name: "C02_cycle", Expect: []string{"end", "return-value-equal", "executed-pcs-equal"},
 				Quick:    grid([]string{"M", "P", "n"}, []int{3, 4, 5}, []int{1, 2}, []int{1, 2}),
 				Thorough: append(grid([]string{"M", "P", "n"}, []int{3, 4, 5, 8}, []int{1, 2, 3}, []int{1, 2}), grid([]string{"M", "P", "n"}, []int{3, 4}, []int{1, 2}, []int{3})...)},
+			// three warriors with the task step restricted to DAT / NOP / SPL
+			// (scheduling does not look at what a task does beyond its queue)
+			{Name: "C02_cycle3", Expect: []string{"end", "return-value-equal"},
+				Quick:    grid([]string{"M", "P", "n"}, []int{3, 5}, []int{1, 2}, []int{3, 4}),
+				Thorough: grid([]string{"M", "P", "n"}, []int{3, 5, 8}, []int{1, 2, 3}, []int{3, 4})},
 			{Name: "C02_cycle_canary", Role: "canary",
 				Quick:    []Params{{"M": 3, "P": 1, "n": 2}},
 				Thorough: []Params{{"M": 3, "P": 1, "n": 2}, {"M": 4, "P": 2, "n": 3}}},
@@ -273,6 +278,9 @@ func init() {
 			{Name: "C05_forcount", Expect: []string{"end"}, TerminationClaim: true, Witnesses: 4,
 				Quick:    grid([]string{"maxCount"}, []int{4}),
 				Thorough: grid([]string{"maxCount"}, []int{8})},
+			{Name: "C05_fortail", Expect: []string{"end"}, TerminationClaim: true, Witnesses: 4,
+				Quick:    grid([]string{"tail"}, []int{0, 1, 2, 3}),
+				Thorough: grid([]string{"tail"}, []int{0, 1, 2, 3, 4})},
 			{Name: "C05_equ", Expect: []string{"end", "accepted", "rejected"}, TerminationClaim: true, Witnesses: 4,
 				Quick:    grid([]string{"deflen"}, []int{2}),
 				Thorough: grid([]string{"deflen"}, []int{3})},
